@@ -335,7 +335,7 @@ def sat(t):
         x = 2. * c / (-b + sqrt(b * b - 4. * a * c))
         x = x * x
         p = pstar4 * x * x
-        return p
+        return min(p, pcritical) # (rounding error at critical point)
 
     else: return None
 
